@@ -101,6 +101,7 @@ func (t *tr) setObj(obj types.Object, name string, ty types.Type, val string, n 
 		return
 	}
 	t.rank(obj)
+	delete(t.f.consumed, obj)
 	t.f.env[obj] = t.define(name, lt, val)
 }
 
@@ -491,8 +492,42 @@ func (t *tr) ret(x *ast.ReturnStmt) string {
 }
 
 // errGuard recognises `if err != nil { return …, <non-nil> }` for the given error variable.
+// isIgnored: a statement that is a call of a unit-level -ignore callee (monitoring)
+func (t *tr) isIgnored(s ast.Stmt) bool {
+	es, ok := s.(*ast.ExprStmt)
+	if !ok {
+		return false
+	}
+	c, ok := es.X.(*ast.CallExpr)
+	if !ok {
+		return false
+	}
+	key := t.ck(c)
+	for _, ig := range t.u.ignore {
+		if ig == key {
+			return true
+		}
+	}
+	return false
+}
+
+func (t *tr) dropIgnored(l []ast.Stmt) []ast.Stmt {
+	var r []ast.Stmt
+	for _, s := range l {
+		if !t.isIgnored(s) {
+			r = append(r, s)
+		}
+	}
+	return r
+}
+
 func (t *tr) errGuard(s ast.Stmt, errObj types.Object) bool {
 	is, ok := s.(*ast.IfStmt)
+	if ok && is.Body != nil && len(t.u.ignore) > 0 {
+		cp := *is
+		cp.Body = &ast.BlockStmt{Lbrace: is.Body.Lbrace, List: t.dropIgnored(is.Body.List), Rbrace: is.Body.Rbrace}
+		is = &cp
+	}
 	if !ok || is.Init != nil || is.Else != nil || len(is.Body.List) != 1 {
 		return false
 	}
@@ -514,6 +549,27 @@ func (t *tr) errGuard(s ast.Stmt, errObj types.Object) bool {
 		return true
 	}
 	return t.isNonNilErr(last)
+}
+
+// loopGuard recognises `if err != nil { continue }` / `{ break }` inside a translated loop and returns that statement
+func (t *tr) loopGuard(s ast.Stmt, errObj types.Object) ast.Stmt {
+	is, ok := s.(*ast.IfStmt)
+	if !ok || is.Init != nil || is.Else != nil || len(is.Body.List) != 1 || len(t.f.loops) == 0 {
+		return nil
+	}
+	be, ok := is.Cond.(*ast.BinaryExpr)
+	if !ok || be.Op != token.NEQ {
+		return nil
+	}
+	a, ok1 := be.X.(*ast.Ident)
+	b, ok2 := be.Y.(*ast.Ident)
+	if !ok1 || !ok2 || t.objOf(a) != errObj || b.Name != "nil" {
+		return nil
+	}
+	if br, ok := is.Body.List[0].(*ast.BranchStmt); ok && br.Label == nil && (br.Tok == token.CONTINUE || br.Tok == token.BREAK) {
+		return br
+	}
+	return nil
 }
 
 // inlineClosure: a call of a local procedure `f := func(a T, dst []byte) {…}`: scalar parameters are bound to the argument
@@ -802,6 +858,51 @@ func (t *tr) block(stmts []ast.Stmt, depth int, k func() string) string {
 	case *ast.AssignStmt:
 		if x.Tok == token.DEFINE || x.Tok == token.ASSIGN {
 			if len(x.Rhs) == 1 {
+				if c, ok := x.Rhs[0].(*ast.CallExpr); ok {
+					if o, isStep := t.f.stepops[t.ck(c)]; isStep {
+						// r1, …, rn := X.m(args) on an abstract object X: (r1, …, rn, X') := name X args
+						sel := c.Fun.(*ast.SelectorExpr)
+						xobj, xname := t.placeObj(sel.X)
+						sig, _ := t.typeOf(c.Fun).(*types.Signature)
+						if xobj == nil || sig == nil || sig.Results().Len() != len(x.Lhs) {
+							return t.fail(s, "-step call shape")
+						}
+						args := []string{t.expr(sel.X)}
+						for _, a := range c.Args {
+							args = append(args, t.expr(a))
+						}
+						var tys []string
+						for i := 0; i < sig.Results().Len(); i++ {
+							tys = append(tys, t.leanType(sig.Results().At(i).Type()))
+						}
+						tys = append(tys, t.leanType(t.typeOf(sel.X)))
+						tmp := t.define("step_"+o.name, strings.Join(tys, " × "), leanName(o.name)+" "+strings.Join(args, " "))
+						n := len(tys)
+						for i, l := range x.Lhs {
+							p := tmp
+							for j := 0; j < i; j++ {
+								p += ".2"
+							}
+							if i < n-1 {
+								p += ".1"
+							}
+							if id, ok := l.(*ast.Ident); ok && id.Name == "_" {
+								continue
+							}
+							lo, ln := t.placeObj(l)
+							if lo == nil {
+								return t.fail(s, "-step target %s", t.src(l))
+							}
+							t.setObj(lo, ln, sig.Results().At(i).Type(), p, s)
+						}
+						last := tmp
+						for j := 0; j < n-1; j++ {
+							last += ".2"
+						}
+						t.setObj(xobj, xname, t.typeOf(sel.X), last, s)
+						return t.block(rest, depth, k)
+					}
+				}
 				if c, sg := t.statefulSig(x.Rhs[0]); sg != nil {
 					t.statefulCall(x.Lhs, c, sg, s)
 					return t.block(rest, depth, k)
@@ -1026,6 +1127,9 @@ func (t *tr) block(stmts []ast.Stmt, depth int, k func() string) string {
 				}
 			}
 		}
+		if t.isIgnored(x) {
+			return t.block(rest, depth, k) // monitoring call: no influence on the results
+		}
 		if c, sg := t.statefulSig(x.X); sg != nil {
 			t.statefulCall(nil, c, sg, s)
 			return t.block(rest, depth, k)
@@ -1045,6 +1149,9 @@ func (t *tr) block(stmts []ast.Stmt, depth int, k func() string) string {
 		case token.BREAK:
 			return ind(depth) + "GoSem.Step.brk " + st
 		case token.CONTINUE:
+			if lc := t.f.loops[len(t.f.loops)-1]; lc.post != nil {
+				return t.block([]ast.Stmt{lc.post}, depth, func() string { return "GoSem.Step.next " + lc.state() })
+			}
 			return ind(depth) + "GoSem.Step.next " + st
 		}
 		return t.fail(s, "branch statement %s", x.Tok)
@@ -1219,8 +1326,23 @@ func (t *tr) bindOption(x *ast.AssignStmt, tup *types.Tuple, rest []ast.Stmt, de
 		if !ok {
 			return t.fail(x, "assignment target")
 		}
+		if len(rest) > 0 {
+			if br := t.loopGuard(rest[0], t.objOf(eid)); br != nil {
+				// err := f(…); if err != nil { continue / break }
+				opt := t.define("opt_"+eid.Name, "Option Unit", t.expr(x.Rhs[0]))
+				pre := t.cloneEnv()
+				noneB := t.block([]ast.Stmt{br}, depth+1, k)
+				t.f.env = cloneMap(pre)
+				body := t.block(rest[1:], depth+1, k)
+				return fmt.Sprintf("%smatch %s with\n%s| none =>\n%s\n%s| some _ =>\n%s", ind(depth), opt, ind(depth), noneB, ind(depth), body)
+			}
+		}
 		if len(rest) == 0 || !t.errGuard(rest[0], t.objOf(eid)) {
-			return t.fail(x, "an error result must be followed by `if err != nil { return …, err }`")
+			// an error kept as a value: only whether it is nil can be asked (`err == nil`, `err != nil`)
+			t.f.errBool[t.objOf(eid)] = true
+			t.rank(t.objOf(eid))
+			t.f.env[t.objOf(eid)] = t.define(eid.Name, "Bool", "("+t.expr(x.Rhs[0])+").isNone")
+			return t.block(rest, depth, k)
 		}
 		if c, isCall := x.Rhs[0].(*ast.CallExpr); isCall {
 			if sg := t.calleeSig(c); sg != nil && sg.proc && sg.optional {
@@ -1269,7 +1391,11 @@ func (t *tr) bindOption(x *ast.AssignStmt, tup *types.Tuple, rest []ast.Stmt, de
 		t.setVar(vid, tup.At(0).Type(), "("+t.expr(x.Rhs[0])+").getD []")
 		return t.block(rest[1:], depth, k)
 	}
-	if len(rest) == 0 || !t.errGuard(rest[0], errObj) {
+	var loopBr ast.Stmt
+	if len(rest) > 0 {
+		loopBr = t.loopGuard(rest[0], errObj)
+	}
+	if loopBr == nil && (len(rest) == 0 || !t.errGuard(rest[0], errObj)) {
 		return t.fail(x, "a (value, error) result must be followed by `if err != nil { return …, err }`")
 	}
 	f := t.f
@@ -1318,6 +1444,14 @@ func (t *tr) bindOption(x *ast.AssignStmt, tup *types.Tuple, rest []ast.Stmt, de
 	}
 	if ioDst != nil {
 		t.store(ioDst, x, fmt.Sprintf("GoSem.copyInto %s %s %s %s", f.env[ioDst], ioLo, ioHi, bn))
+	}
+	if loopBr != nil {
+		preEnv := t.cloneEnv()
+		body := t.block(rest[1:], depth+1, k)
+		f.binders = saved
+		t.f.env = cloneMap(preEnv)
+		noneB := t.block([]ast.Stmt{loopBr}, depth+1, k)
+		return fmt.Sprintf("%smatch %s with\n%s| none =>\n%s\n%s| some %s =>\n%s", ind(depth), opt, ind(depth), noneB, ind(depth), bn, body)
 	}
 	body := t.block(rest[1:], depth+1, k)
 	f.binders = saved
@@ -1625,6 +1759,11 @@ func (t *tr) assignedObjs(stmts []ast.Stmt) map[types.Object]bool {
 				for _, i := range t.destArgs(x) {
 					if i >= 0 && i < len(x.Args) {
 						markStore(x.Args[i])
+					}
+				}
+				if _, isStep := t.f.stepops[t.ck(x)]; isStep {
+					if sel, ok := x.Fun.(*ast.SelectorExpr); ok {
+						mark(sel.X)
 					}
 				}
 				if sg := t.calleeSig(x); sg != nil && sg.stateful {
